@@ -26,6 +26,9 @@ def identStartR : List (Nat × Nat) := [(65, 84), (86, 90), (95, 95), (97, 116),
 def nameStartR : List (Nat × Nat) := [(65, 90), (95, 95), (97, 122), (128, 1114111)]
 /-- further code points of a plain identifier: letters, digits, `-`, `_`, non-ASCII -/
 def identRestR : List (Nat × Nat) := [(45, 45), (48, 57), (65, 90), (95, 95), (97, 122), (128, 1114111)]
+/-- second code point of a name that starts with `u` / `U`: a name code point other than `r` `R` (and no escape) -/
+def uSecondR : List (Nat × Nat) :=
+  [(45, 45), (48, 57), (65, 81), (83, 90), (95, 95), (97, 113), (115, 122), (128, 1114111)]
 def hexR : List (Nat × Nat) := [(48, 57), (65, 70), (97, 102)]
 /-- a code point that a backslash escapes *as itself* (a "simple escape": the value keeps backslash and code
 point): anything but a hex digit and LF / CR / FF -/
@@ -47,12 +50,16 @@ def digitR : List (Nat × Nat) := [(48, 57)]
 def numStopR : List (Nat × Nat) :=
   [(0, 36), (38, 39), (41, 44), (47, 47), (58, 64), (91, 91), (93, 94), (96, 96), (123, 127)]
 
-/-- a name whose value is its spelling: start code point (optionally after one `-`), then name code points and
-simple escapes (no hex escapes: their value differs from the spelling) -/
+/-- a name whose value is its spelling: a start code point (optionally after one `-`) or a simple escape, then name
+code points and simple escapes (no hex escapes: their value differs from the spelling) -/
 def plainName : Cps → Bool
   | [] => false
   | [c] => inRanges identStartR c
-  | c :: d :: u => if c == 45 then inRanges nameStartR d && nameBody u else inRanges identStartR c && nameBody (d :: u)
+  | c :: d :: u =>
+    if c == 45 then inRanges nameStartR d && nameBody u
+    else if c == 92 then escOk d && d != 85 && d != 117 && nameBody u      -- not `\u` / `\U`: they may start `url(` / `U+`
+    else if c == 85 || c == 117 then inRanges uSecondR d && nameBody (d :: u)   -- `u…`, but not `ur…` (`url(`), `u\…`
+    else inRanges identStartR c && nameBody (d :: u)
 
 /-- body of a plain STRING with quote `q`: not the quote, no backslash, no LF / CR / FF -/
 def strPlain (q c : Nat) : Bool := c != q && c != 92 && c != 10 && c != 13 && c != 12
@@ -118,7 +125,12 @@ def Tok.plainCls (t : Tok) : Bool :=
   | .number => (match t.val with
       | c :: r => if c == 43 || c == 45 then !r.isEmpty && r.all (inRanges digitR) else (c :: r).all (inRanges digitR)
       | [] => false)
-  | .dimension => !(t.val.takeWhile (inRanges digitR)).isEmpty && plainName (t.val.dropWhile (inRanges digitR))
+  | .dimension => (match t.val with
+      | c :: r =>
+        if c == 43 || c == 45 then
+          !(r.takeWhile (inRanges digitR)).isEmpty && plainName (r.dropWhile (inRanges digitR))
+        else !((c :: r).takeWhile (inRanges digitR)).isEmpty && plainName ((c :: r).dropWhile (inRanges digitR))
+      | [] => false)
   | _ => false
 
 def Tok.plain (t : Tok) : Bool := headOk t.val && t.plainCls
